@@ -214,7 +214,7 @@ func Run(c Case) (pbt.Outcome, error) {
 	hists := make([]tally.Histogram, c.NRoot)
 	for i := range counters {
 		counters[i] = root.Counter(fmt.Sprintf("c%d", i))
-		hists[i] = root.Histogram(fmt.Sprintf("h%d", i), tally.ValueBuckets{0, 1})
+		hists[i] = root.Histogram(fmt.Sprintf("h%d", i), hspec(i))
 	}
 	gauges := make([]tally.Gauge, c.NGauges)
 	for i := range gauges {
@@ -261,13 +261,14 @@ func Run(c Case) (pbt.Outcome, error) {
 			switch w.Kind {
 			case "inc":
 				ti := w.Target % c.NRoot
-				ca, ha := tot(fmt.Sprintf("c%d", ti)), tot(fmt.Sprintf("h%d", ti))
+				ca := tot(fmt.Sprintf("c%d", ti))
 				for j, d := range w.Deltas {
 					counters[ti].Inc(d)
 					ca.add(d)
 					if w.Hist && j%3 == 0 {
-						hists[ti].RecordValue(float64(j % 3))
-						ha.add(1)
+						v := float64((j / 3) % 3)
+						hists[ti].RecordValue(v)
+						tot(hkey(fmt.Sprintf("h%d", ti), ti, v)).add(1)
 					}
 				}
 			case "cycle":
@@ -280,7 +281,7 @@ func Run(c Case) (pbt.Outcome, error) {
 						cname, hname, kname = "c|id="+san, "h|id="+san, "k.c|id="+san
 					}
 				}
-				ca, ha, ka := tot(cname), tot(hname), tot(kname)
+				ca, ka := tot(cname), tot(kname)
 				for k := 0; k < w.Cycles; k++ {
 					var sub tally.Scope
 					if w.Tagged && c.Sanitize {
@@ -297,8 +298,8 @@ func Run(c Case) (pbt.Outcome, error) {
 						ca.add(d)
 					}
 					if w.Hist {
-						sub.Histogram("h", tally.ValueBuckets{0, 1}).RecordValue(float64(k % 3))
-						ha.add(1)
+						sub.Histogram("h", hspec(w.Target)).RecordValue(float64(k % 3))
+						tot(hkey(hname, w.Target, float64(k%3))).add(1)
 					}
 					if w.Gauge {
 						gname := strings.Replace(cname, "c", "g", 1)
@@ -397,6 +398,9 @@ func Run(c Case) (pbt.Outcome, error) {
 			}
 		case rec.KCounter, rec.KHValue:
 			n := e.Name + tagSuffix(e.Tags)
+			if e.Kind == rec.KHValue {
+				n = fmt.Sprintf("%s#<=%v%s", e.Name, e.Hi, tagSuffix(e.Tags))
+			}
 			if e.I == 0 {
 				errs.Addf("zero delta delivered: %v", e)
 			}
@@ -494,6 +498,30 @@ func Run(c Case) (pbt.Outcome, error) {
 	return out, errs.Err()
 }
 
+// hspec: every second histogram uses {1}, a different specification with the same identity in the
+// root's bucket cache as {0,1}; samples are accounted per (histogram, bucket).
+func hspec(i int) tally.ValueBuckets {
+	if i%2 == 1 {
+		return tally.ValueBuckets{1}
+	}
+	return tally.ValueBuckets{0, 1}
+}
+
+func hkey(n string, i int, v float64) string {
+	hi := math.MaxFloat64
+	for _, b := range hspec(i) {
+		if v <= b {
+			hi = b
+			break
+		}
+	}
+	suffix := ""
+	if at := strings.Index(n, "|"); at >= 0 {
+		n, suffix = n[:at], n[at:]
+	}
+	return fmt.Sprintf("%s#<=%v%s", n, hi, suffix)
+}
+
 func tagSuffix(tags map[string]string) string {
 	if len(tags) == 0 {
 		return ""
@@ -502,4 +530,4 @@ func tagSuffix(tags map[string]string) string {
 }
 
 // Rule is the text shared by the three checks' evidence.
-const Rule = "free-running mode (real parallelism, no cooperative scheduler): a generated program of 2..8 goroutines - incrementers of root counters/histograms (deltas incl. 0, negatives, int64 extremes), obtain/record/Close cyclers each on its own subscope identity (SubScope or Tagged, optional child scope, double Close; optionally under a sanitizer with the identity spelled alternately in two ways that sanitize to one), sole updaters of gauges (hostile float64 bit patterns), extra report-pass callers - runs against the library's REAL report loop (ticker interval 10..300us, or none), optionally with seeded Gosched perturbation at the verif hooks and a slow reporter, and ends with the root's Close (or two sequential passes). Oracle (exact, because every increment precedes the Close of its scope in program order): per metric delivered total == sum of increments; no zero delivery; no negative delta when all increments are non-negative; nothing delivered after Close returned / by a second sequential pass; every delivered gauge value was passed to Update, deliveries <= updates, last delivered == last update; no panic. Non-trivial: at least one report pass (Flush) completed while the workers were running. The program is replayable, the schedule is not (a failure is confirmed by re-running the program up to Retries times)."
+const Rule = "free-running mode (real parallelism, no cooperative scheduler): a generated program of 2..8 goroutines - incrementers of root counters/histograms (deltas incl. 0, negatives, int64 extremes), obtain/record/Close cyclers each on its own subscope identity (SubScope or Tagged, optional child scope, double Close; optionally under a sanitizer with the identity spelled alternately in two ways that sanitize to one), sole updaters of gauges (hostile float64 bit patterns), extra report-pass callers - runs against the library's REAL report loop (ticker interval 10..300us, or none), optionally with seeded Gosched perturbation at the verif hooks and a slow reporter, and ends with the root's Close (or two sequential passes). Oracle (exact, because every increment precedes the Close of its scope in program order): per metric (per bucket for histograms, every second one created with a different specification of equal cache identity) delivered total == sum of increments, nothing delivered under a name or bucket never recorded into; no zero delivery; no negative delta when all increments are non-negative; nothing delivered after Close returned / by a second sequential pass; every delivered gauge value was passed to Update, deliveries <= updates, last delivered == last update; no panic. Non-trivial: at least one report pass (Flush) completed while the workers were running. The program is replayable, the schedule is not (a failure is confirmed by re-running the program up to Retries times)."
